@@ -152,24 +152,24 @@ type Scenario struct {
 }
 
 type Event struct {
-	Thread int
-	Op     Op
-	Inv    int64
-	Ret    int64
-	Err    string
-	Val    string
+	Thread    int
+	Op        Op
+	Inv       int64
+	Ret       int64
+	Err       string
+	Val       string
 	closedErr bool
 	notFound  bool
 }
 
 type ExecRecord struct {
-	Events   []*Event
-	Setup    *Model
-	Disk     *simdisk.Disk
-	PostViol []Violation
+	Events           []*Event
+	Setup            *Model
+	Disk             *simdisk.Disk
+	PostViol         []Violation
 	OpenHandlesAtEnd int
-	DaemonsLeft []string
-	FinalObs *Obs
+	DaemonsLeft      []string
+	FinalObs         *Obs
 }
 
 func (e *Event) String() string {
